@@ -6,3 +6,6 @@ open WebPkg.C06
 #print axioms verify_sound
 #print axioms subset_checked_before_trusted
 #print axioms signedMessage_injective
+#print axioms honest_verifies_all
+#print axioms signerMsg_is_signed_message
+#print axioms honest_verifies_after_roundtrip
